@@ -21,12 +21,45 @@ REQUIRED = [
     "DaeVerif.C12.Props.slot_same_set_ip",
     "DaeVerif.C12.Props.mac_slot_exact",
     "DaeVerif.C12.Props.dns_ip_rules_by_containment",
+    "DaeVerif.C12.Props.contains_iff_in_range",
+    "DaeVerif.C12.Props.first_last_inside_neighbours_outside",
+    "DaeVerif.C12.Props.host_bits_ignored",
+    "DaeVerif.C12.Props.set_union",
+    "DaeVerif.C12.Props.same_members_same_set",
+    "DaeVerif.C12.Props.mapped_twin_same_addresses",
+    "DaeVerif.C12.Props.parsed_prefix_wf",
+    "DaeVerif.C12.Props.bare_text_is_host_route",
+    "DaeVerif.C12.Props.explicit_length_kept",
+    "DaeVerif.C12.Props.text_set_by_containment",
+    "DaeVerif.C12.Props.route_with_sharing_by_containment",
+    "DaeVerif.C12.Props.parallel_build_order_independent",
 ]
+
+
+def _mask(v, width, bits):
+    return v & ~((1 << (width - bits)) - 1) if 0 <= bits <= width else v
+
+
+def canon_line(l):
+    """Host bits of a prefix / kernel key carry no meaning (Props.host_bits_ignored): `pfx=` and `key=`
+    answers are compared modulo them, so that a parser or key writer that masks (or does not) is not
+    reported as long as family, network and length agree."""
+    try:
+        if l.startswith("pfx="):
+            fam, rest = l[4:].split(":", 1)
+            hx, bits = rest.split("/")
+            w = 32 if fam == "4" else 128
+            return "pfx=%s:%0*x/%s" % (fam, w // 4, _mask(int(hx, 16), w, int(bits)), bits)
+        if l.startswith("key="):
+            n, hx = l[4:].split(":", 1)
+            return "key=%s:%032x" % (n, _mask(int(hx, 16), 128, int(n)))
+    except ValueError:
+        pass
+    return l
 
 
 def run(ctx):
     ctx.trusted += [
-        "kernel LPM-trie lookup contract (a stored key matches when its first prefixlen bits equal the probe's) — modelled as lpmLookup, not verified",
         "pkg/trie's succinct trie is tied at API level here (HasPrefix = some stored key is a prefix of the word); its internals are C11's subject",
         "translators/fakebpf (synthetic bpf2go declarations so that the production cidrToBpfLpmKey compiles)",
     ]
@@ -44,17 +77,17 @@ def run(ctx):
         return 2
     if not ctx.driver("c12drv", ops, model):
         ctx.proof_failures.append("model driver c12drv failed to run")
-    mism = ctx.diff_streams(ops, impl, model, "c12")
+    mism = ctx.diff_streams(ops, impl, model, "c12", canon=canon_line)
     # property-level oracle on the implementation side as well: trie = lpm = spec on every match line
     n_eval = n_hit = 0
     distinct = set()
     for op, im in zip(read_lines(ops), read_lines(impl)):
-        if op.startswith("match "):
+        if op.startswith("match ") or op.startswith("matchk "):
             n_eval += 1
             distinct.add(op)
-            f = dict(kv.split("=") for kv in im.split() if "=" in kv)
-            if len(set(f.values())) != 1:
-                ctx.report(f"userspace trie / kernel key / CIDR containment disagree on the implementation: {im}",
+            f = dict(kv.split("=", 1) for kv in im.split() if kv.startswith(("trie=", "lpm=", "spec=", "kern=")))
+            if len(set(f.values())) != 1 or not set(f.values()) <= {"0", "1"}:
+                ctx.report(f"userspace trie / kernel keys (contract and REAL kernel LPM trie) / CIDR containment disagree on the implementation: {im}",
                            {"op": op, "impl": im}, key=None)
             n_hit += f.get("trie") == "1"
     for ln, op, im, mo in mism[:10]:
@@ -89,6 +122,12 @@ def run(ctx):
     dstats = json.load(open(os.path.join(ctx.out, "c12dns.stats.json")))
     ctx.cov["dns_input_distribution"] = dstats["counters"]
     stats = json.load(open(os.path.join(ctx.out, "c12.stats.json")))
+    route_lines = [o for o in read_lines(ops) if o.startswith(("route ", "ptxt "))]
+    distinct |= set(route_lines)
+    for op, mo in zip(read_lines(ops), read_lines(model)):
+        if mo in ("bad-op", "SPEC-DIFFERS", "bad-lpm-index"):
+            ctx.report("model driver: bad op / spec differs on the main stream (harness-model protocol bug)", {"op": op[:2000], "model": mo})
+            break
     ctx.samples = stats["samples"] + read_lines(ops)[:3]
     ctx.cov["input_distribution"] = stats["counters"]
     ctx.cov["match_hits"] = n_hit
@@ -109,6 +148,33 @@ def run(ctx):
             miss = c.get("sweep.%s.len%03d.0" % (fam, L), 0)
             if hit < 1 or (miss < 1 and not (fam == "v6" and L == 0)):
                 floors.append(f"length sweep: {fam} /{L} has hits={hit} misses={miss}")
+    # --- the REAL kernel LPM trie (production newLpmMap / BpfMapBatchUpdate): available only with bpf(2)
+    if c.get("kern.unavailable", 0):
+        why = [x for x in stats["samples"] if x.startswith("kernel LPM stream unavailable")]
+        ctx.cov["kernel_lpm_stream"] = "UNAVAILABLE in this sandbox (no verdict drawn from it): " + (why[0] if why else "?")
+        ctx.say("NOTE property=C12: bpf(2) is not available, the kernel LPM-trie contract stays a trusted assumption in this run")
+        ctx.trusted.append("kernel LPM-trie lookup contract (a stored key matches when its first prefixlen bits equal the probe's) — "
+                           "modelled as lpmLookup; NOT checked in this run (bpf(2) unavailable)")
+    else:
+        ctx.cov["kernel_lpm_stream"] = {k: v for k, v in c.items() if k.startswith("kern.")}
+        ctx.trusted.append("kernel LPM-trie: no longer assumed — every set's production keys are loaded by production newLpmMap into a real "
+                           "BPF_MAP_TYPE_LPM_TRIE of the running kernel and probed there (the probe key is built by the harness the way "
+                           "tproxy.c builds it: prefixlen 128 + the 16 address bytes; the C side is C02's subject)")
+        for key, least in [("kern.hit", 500), ("kern.miss", 500), ("kern.map.simulated_batch", 50), ("kern.fault_injected", 2)]:
+            if c.get(key, 0) < least:
+                floors.append(f"{key}={c.get(key, 0)} < {least}")
+        if c.get("kern.detected_genuine_batch", 0) and c.get("kern.map.genuine_batch", 0) < 50:
+            floors.append("fewer than 50 sets loaded with the genuine batch update")
+    for key, least in ([("ptxt.valid_spelling", 300), ("ptxt.directed.accepted", 20), ("ptxt.directed.refused", 40),
+                       ("ptxt.limit.accepted", 20), ("ptxt.limit.refused", 10), ("ptxt.mutated.accepted", 15),
+                       ("ptxt.mutated.refused", 100), ("spell.v6_dotted_quad", 10),
+                       ("route.prog", 40), ("route.prog.parallel_build", 8), ("route.prog.serial_build", 8),
+                       ("route.prog.production_optimizers", 15), ("route.rule.negated", 20), ("route.rule.mac", 15),
+                       ("route.set.same_again", 5), ("route.set.near_twin", 3), ("route.kcheck.probe", 1000),
+                       ("route.kcheck.rule_index", 100), ("route.prog.edited_reload", 10), ("route.concurrent_replay", 40), ("route.old_generation_revisited", 30)]
+                      + [("route.decision.out=%d" % o, 20) for o in range(5)]):
+        if c.get(key, 0) < least:
+            floors.append(f"{key}={c.get(key, 0)} < {least}")
     ctx.cov["generator_floors_failed"] = floors
     if floors and not ctx.violations and not ctx.proof_failures:
         # (with violations present the floors are moot: e.g. a broken /0 turns every probe into a hit)
@@ -117,7 +183,7 @@ def run(ctx):
     dc = dstats["counters"]
     dfl = []
     for key, least in [("dns.prog", 50), ("dns.rule.negated", 20), ("dns.answer.reject", 200), ("dns.answer.accept", 200),
-                       ("dns.same_set_again", 5), ("dns.near_twin_set", 5), ("dns.wrap_probe", 1)]:
+                       ("dns.same_set_again", 5), ("dns.prog.edited_reload", 15), ("dns.near_twin_set", 5), ("dns.wrap_probe", 1)]:
         if dc.get(key, 0) < least:
             dfl.append(f"{key}={dc.get(key, 0)} < {least}")
     if dfl and not ctx.violations and not ctx.proof_failures:
@@ -125,9 +191,12 @@ def run(ctx):
         return 2
     ctx.cov["dns_ip_rule_evaluations"] = n_dns
     ctx.assumptions = ["probe addresses and prefix sets are generated (seeded); sizes 1..~220 prefixes per set",
+                       "route stream: single-condition rules [!]ip|dip|sip|mac(..) -> outbound through the real text parser, optimizers, builder, "
+                       "snapshot, BuildUserspace and ControlPlane.Route; '&&' combinations and the other condition kinds are C01's subject; "
+                       "the kernel's scan of the rule image is C02's",
                        "dns stream: single-condition response rules [!]ip(..) -> accept|reject, 1..3 answer addresses, fallback accept; "
                        "combinations with qname/qtype/upstream conditions are C07's subject"]
-    return ctx.finish(rule="ops = bin/key/match/canon/share lines and dnsip lines (one (response ip() rule list, answer addresses) pair each); a `match` op is one (prefix set, probe address) pair, "
+    return ctx.finish(rule="ops = bin/key/match(k)/canon/share/ptext/ptxt/route/kcheck/conc/regen/kfault lines and dnsip lines (one (response ip() rule list, answer addresses) pair each); a `match` op is one (prefix set, probe address) pair, "
                            "probes are the first/last address inside and the neighbours outside every prefix plus random ones; "
-                           "distinct_nontrivial counts distinct match ops",
+                           "distinct_nontrivial counts distinct match, route, ptxt and dnsip ops",
                       evaluations=len(read_lines(ops)) + n_dns, distinct=len(distinct))
